@@ -51,3 +51,37 @@ Proof.
 Qed.
 Lemma fence_free_dec y : find_fence y [] = None -> fence_free y.
 Proof. intros H acc. eapply fence_free_acc; eauto. Qed.
+
+(* the converse: whatever the search finds is a fence-free text followed by a line feed and the fence *)
+Lemma find_fence_sound s : forall acc b a, find_fence s acc = Some (b, a) ->
+  exists y, b = rev acc ++ y /\ s = y ++ x0a :: fence ++ a /\ find_fence y [] = None.
+Proof.
+  induction s as [|c r IH]; intros acc b a H; [discriminate|]. cbn [find_fence] in H.
+  destruct (beq c x0a) eqn:E.
+  - destruct (strip fence r) as [a'|] eqn:S.
+    + inversion H; subst. exists []. rewrite app_nil_r. repeat split.
+      apply beq_true in E. subst c. cbn [app]. f_equal. now apply strip_Some.
+    + destruct (IH _ _ _ H) as (y & Hb & Hs & Hf). exists (c :: y). repeat split.
+      * rewrite Hb. cbn [rev]. now rewrite <- app_assoc.
+      * cbn [app]. now rewrite Hs.
+      * cbn [find_fence]. rewrite E.
+        assert (Sy : strip fence y = None).
+        { destruct (strip fence y) as [t|] eqn:Sy; [|reflexivity]. exfalso.
+          apply strip_Some in Sy. rewrite Sy in Hs. rewrite Hs in S. rewrite <- app_assoc in S. now rewrite strip_app in S. }
+        rewrite Sy. eapply fence_free_acc; eauto.
+  - destruct (IH _ _ _ H) as (y & Hb & Hs & Hf). exists (c :: y). repeat split.
+    + rewrite Hb. cbn [rev]. now rewrite <- app_assoc.
+    + cbn [app]. now rewrite Hs.
+    + cbn [find_fence]. rewrite E. eapply fence_free_acc; eauto.
+Qed.
+(* so a recognised block is always fence-free, and the file is fence, block, line feed, fence, rest of that line and body *)
+Theorem extract_sound s y body : extract s = (Some y, body) ->
+  fence_free y /\ exists tail, s = fence ++ y ++ x0a :: fence ++ tail /\
+    body = match tail with c :: r => if beq c x0a then r else tail | [] => [] end.
+Proof.
+  unfold extract. destruct (strip fence s) as [rest|] eqn:S; [|discriminate].
+  destruct (find_fence rest []) as [[fm after]|] eqn:F; [|discriminate].
+  intro H. inversion H; subst. destruct (find_fence_sound _ _ _ _ F) as (y' & Hb & Hs & Hf).
+  cbn [rev app] in Hb. subst y'. split; [now apply fence_free_dec|].
+  exists after. split; [|reflexivity]. apply strip_Some in S. now rewrite S, Hs.
+Qed.
